@@ -53,6 +53,26 @@ def make_cases(tier, seed):
         pre = {'major': 1, 'minor': 0, 'private': None if L % 2 else 3, 'bps': sets}
         cases.append({'id': 'a%05d' % L, 'preamble': pre, 'open': {'id': 'o0', 'kind': 'fd', 'comp': 'none'},
                       'ops': [{'op': 'qr', 'r': {'asn': '4153'}}, {'op': 'wb'}]})
+    # the same members at every position relative to the decoder's 65535-byte window: a text member of the first set is long enough to
+    # push the following sets across stream offset 65535 (thorough: also 2 x 65535), one byte further per case
+    W = 65535
+    for kk, base in enumerate([W] if tier == 'quick' else [W, 2 * W]):
+        for d in range(720):
+            L = base - 700 + d
+            r = gen.seeded(seed, 'C09w', d % 5)
+            wide = lambda: r.choice([2 ** 32 + 1, 2 ** 40 + 7, 2 ** 63 + 11, 2 ** 64 - 2, 0x0102030405060708, 0x01020304, 0x0102])
+            bp0 = gen.gen_bp(r, tps=1000, maxi=5)
+            bp0.pop('cp', None)
+            bp0['samp'] = ('73' * L)
+            sets = [bp0]
+            for k in range(2):
+                bp = gen.gen_bp(r, tps=wide(), maxi=wide(), rich=True)
+                bp['tps'], bp['max'] = wide(), wide()
+                bp['cp'] = {'qto': wide(), 'sto': wide(), 'snap': wide(), 'vlan': [0x0102, 0xfffe], 'filter': ('66' * (k * 90)), 'ifs': ['657468' + '30' * 30]}
+                sets.append(bp)
+            pre = {'major': 1, 'minor': 0, 'private': None if d % 2 else 3, 'bps': sets}
+            cases.append({'id': 'w%d%05d' % (kk, d), 'preamble': pre, 'open': {'id': 'o0', 'kind': 'fd', 'comp': 'none'},
+                          'ops': [{'op': 'qr', 'r': {'asn': '4153'}}, {'op': 'wb'}]})
     return cases
 
 
